@@ -57,7 +57,23 @@ static void case_gon2deg(int window, int sign, int prec) {
     sx::f64 back = (f.d + f.m / 60.0 + printed / 3600.0) / 0.9; sx::f64 want = sx::numeric(absg); sx::f64 tol = 0.6 / 3600.0 / 0.9; for (int i = 0; i < prec; i++) tol /= 10;
     sx::check_true(back - want < tol && want - back < tol, tag + " d + m/60 + s/3600 = |gon|*0.9", out);
   }
+  // and back through the reader of sexagesimal values: deg2gon(gon2deg(g)) = g (|g| when the sign is not shown)
+  { Real back = sx::rat(0); bool ok = deg2gon(out, back); sx::check_true(ok, tag + " deg2gon accepts the string written by gon2deg", out);
+    Real expect = (sign == 0) ? absg : g;
+    if (ok) { if (sx::symbolic_mode()) { Real d = back - expect;      // up to the rounding of the literal 0.9 against 360/400 (2e-17 relative, limit L1)
+        sx::check_le(d, sx::rat(1, 1000000000), tag + " deg2gon(gon2deg(g)) = g"); sx::check_le(-d, sx::rat(1, 1000000000), tag + " deg2gon(gon2deg(g)) = g"); }
+      else { sx::f64 tol = 0.6 / 3600.0 / 0.9; for (int i = 0; i < prec; i++) tol /= 10; sx::f64 d = sx::numeric(back) - sx::numeric(expect); sx::check_true(d < tol && -d < tol, tag + " deg2gon(gon2deg(g)) = g", out); } } }
   sx::reached("geo-gon2deg");
+}
+static void case_deg2gon_literals() {
+  struct L { const char* s; bool ok; const char* deg; };       // value in degrees as an exact decimal
+  static const L lits[] = {{"-0-30-00", true, "-0.5"}, {"+0-30-00", true, "0.5"}, {" 12-30-00 ", true, "12.5"}, {"-12-30-18", true, "-12.505"}, {"0-00-00", true, "0"}, {"-0-00-36", true, "-0.01"},
+                           {" -0-59-59.5 ", false, "0"}, {"359-59-60", true, "360"}, {"12-30", false, "0"}, {"12--30-00", false, "0"}, {"-", false, "0"}, {"", false, "0"}, {"1-2-3x", false, "0"}};
+  for (const L& l : lits) { Real g = sx::rat(777); bool ok = deg2gon(l.s, g); std::string tag = std::string("deg2gon(\"") + l.s + "\")";
+    if (std::string(l.s) == " -0-59-59.5 ") { sx::check_true(ok, tag + " accepted", ""); if (ok) { sx::f64 d = sx::numeric(g) * 0.9 + (59.0 / 60 + 59.5 / 3600); sx::check_true(d < 1e-12 && -d < 1e-12, tag + " value", sx::show(g)); } continue; }
+    sx::check_true(ok == l.ok, tag + (l.ok ? " accepted" : " refused"), "");
+    if (ok && l.ok) { sx::f64 d = sx::numeric(g) * 0.9 - sx::numeric(sx::constant(dq(l.deg))); sx::check_true(d < 1e-12 && -d < 1e-12, tag + " value", sx::show(g)); } }
+  sx::reached("geo-deg2gon");
 }
 
 static void case_dms(int window) {
@@ -107,6 +123,7 @@ static void gen_cases(const sx::Options& opt, std::vector<sx::Case>& cases) {
     cases.push_back({"geo/gon2deg/" + std::to_string(w) + "/" + std::to_string(sign) + "/" + std::to_string(prec), "angle formatting", [w, sign, prec] { case_gon2deg(w, sign, prec); }});
   }
   for (int w = 0; w < 5; w++) cases.push_back({"geo/dms/" + std::to_string(w), "dms<->rad", [w] { case_dms(w); }});
+  cases.push_back({"geo/deg2gon-literals", "angle parsing", [] { case_deg2gon_literals(); }});
   cases.push_back({"geo/bearing", "bearing/distance", [] { case_bearing(); }});
   cases.push_back({"geo/bearing-cut", "bearing/distance", [] { case_bearing_cut(); }});
 }
